@@ -174,6 +174,7 @@ Arguments Throw {F E} e.
 
 (* ---- abstract geometry seen by the loops: only indices matter for footprints ---- *)
 Record tri := { t_index : Z; t_vertex : Z -> Z }.     (* triangle.index(), triangle.vertex(k).index() *)
+Definition dtri : tri := {| t_index := 0; t_vertex := fun _ => 0 |}.
 (* a vertex is represented by its index: vertexp->index() *)
 Notation vert := Z (only parsing).
 
